@@ -104,6 +104,7 @@ type c04Gen struct {
 	sup   []T               // (kv name V)
 	nvar  int
 	allowVar bool
+	scalarDefaultsWhenNested bool
 }
 
 func govToVal(v interface{}, h hintSet) T {
@@ -316,7 +317,8 @@ func (g *c04Gen) variable(t *c04Type, depth int) c04Val {
 	defer func() { g.allowVar = saved }()
 	dt := A("none")
 	def := "$" + name + ": " + t.gql
-	if r.Chance(35) {
+	nestedComposite := g.scalarDefaultsWhenNested && depth > 1 && (t.kind == "list" || t.kind == "input" || (t.kind == "nn" && t.base.kind != "scalar" && t.base.kind != "enum"))
+	if r.Chance(35) && !nestedComposite {
 		d := g.value(t, depth+1)
 		def += " = " + d.lit
 		dt = d.term
